@@ -341,9 +341,9 @@ func (f *fileCtx) selector(x *ast.SelectorExpr) {
 		if f.mode == "explore" {
 			to = "vrt.GC"
 		}
-	case "time.After", "time.NewTimer", "time.AfterFunc", "time.Tick", "time.NewTicker":
+	case "time.After", "time.NewTimer", "time.AfterFunc", "time.Tick", "time.NewTicker", "time.Timer", "time.Ticker":
 		if f.mode == "explore" {
-			f.unsupported(x, "real-time timer "+x.Sel.Name)
+			to = "vrt." + x.Sel.Name // timers on the virtual clock (the types as well)
 		}
 	}
 	if to == "" {
